@@ -35,12 +35,32 @@ def derive_stores(prog, cname):
     c2, gs = prog.method(cname, "get_sample")
     P = S = None
     kind = "attr"
+    def unconv(v):
+        # array(self.X)[b::t] reads the store X like array(self.X[b::t])
+        while isinstance(v, ast.Call) and isinstance(v.func, ast.Name) and v.func.id in ("array", "asarray", "list", "tuple") and len(v.args) == 1:
+            v = v.args[0]
+        return v
     for n in burn_thin_slices(gp):
-        if isinstance(n.value, ast.Attribute) and isinstance(n.value.value, ast.Name) and n.value.value.id == "self":
-            P = n.value.attr
-    for n in burn_thin_slices(gs):
-        v = n.value
-        if isinstance(v, ast.Attribute) and isinstance(v.value, ast.Name):
+        v = unconv(n.value)
+        if isinstance(v, ast.Attribute) and isinstance(v.value, ast.Name) and v.value.id == "self":
+            P = v.attr
+    # a sample getter that is assembled from another getter of the class reads that getter's store
+    gs_fns = [gs]
+    ci_ = prog.cls(cname)
+    for call in ast.walk(gs):
+        if isinstance(call, ast.Call) and isinstance(call.func, ast.Attribute) and isinstance(call.func.value, ast.Name) \
+                and call.func.value.id == "self" and call.func.attr.startswith("get_"):
+            c3, f3 = prog.find_method(ci_, call.func.attr)
+            if f3 is not None and f3 is not gs:
+                gs_fns.append(f3)
+    for n in [x for f_ in gs_fns for x in burn_thin_slices(f_)]:
+        v = unconv(n.value)
+        if isinstance(v, ast.Attribute) and isinstance(v.value, ast.Subscript) and isinstance(v.value.value, ast.Attribute) \
+                and isinstance(v.value.value.value, ast.Name) and v.value.value.value.id == "self":
+            # self.params[index].samples
+            S = (v.value.value.attr, v.attr)
+            kind = "params"
+        elif isinstance(v, ast.Attribute) and isinstance(v.value, ast.Name):
             if v.value.id == "self":
                 S = v.attr
             else:
